@@ -307,6 +307,12 @@ def _run(case, out, rig, server, cfg, variant, phone):
         new_events = rig.top.events[events_before:]
         frames = rig.top.got[got_before:]
         failure = [f for f in frames if isinstance(f, ProtocolTreeNode) and f.tag == "failure"]
+        if not getattr(server, "last_damage_certain", True) and server.state == "transport" and not failure \
+                and YowNoiseLayer.EVENT_HANDSHAKE_FAILED not in new_events:
+            # the damage hit a part of the message's framing that carries nothing: the reply was the authentic one after all
+            out.label("damage_without_effect")
+            out.info = {"nt": False}
+            return out
         if YowNoiseLayer.EVENT_HANDSHAKE_FAILED not in new_events or not failure:
             out.fail("handshake", "corrupt:failure_not_reported", {"events": [e.split(".")[-1] for e in new_events],
                                                                  "got": [getattr(f, "tag", type(f).__name__) for f in frames]})
@@ -458,6 +464,12 @@ def shrink_candidates(case):
         yield dict(case, edge=None)
 
 
+_generated_damage = st.one_of(
+    st.builds(lambda f, p, m: "%s_flip@%d@%d" % (f, p, m), st.sampled_from(["ephemeral", "static", "payload", "wire", "wire"]), st.integers(0, 400), st.integers(0, 254)),
+    st.builds(lambda f, n: "%s_cut@%d" % (f, n), st.sampled_from(["ephemeral", "static", "payload", "wire", "wire"]), st.integers(0, 400)),
+    st.builds(lambda f, n: "%s_long@%d" % (f, n), st.sampled_from(["ephemeral", "static", "payload", "wire"]), st.integers(0, 39)))
+
+
 def case_strategy():
     @st.composite
     def build(draw):
@@ -474,7 +486,7 @@ def case_strategy():
             "after_server": draw(st.integers(0, 4)),
             "after_client": draw(st.integers(0, 4)),
             "prefix": draw(st.lists(st.sampled_from(["before", "during", "during_partial", "after", "after_inside_delivery", "rejected_trailing", "closed_at_once", "closed_at_once"]), min_size=0, max_size=2)),
-            "corrupt": draw(st.sampled_from([False] * 12 + [True, True] + DAMAGE)),
+            "corrupt": draw(st.one_of(st.sampled_from([False] * 12 + [True, True] + DAMAGE), st.sampled_from([False] * 3), _generated_damage)),
             "upper_raises": draw(st.sampled_from([0, 0, 0, 1, 1, 2, 3])),
             "eager": draw(st.booleans()),
             "wire": draw(st.booleans()),
